@@ -101,6 +101,7 @@ def make(n):
 
 
 def units(tier, seed):
+    serial(4 if tier != "quick" else 3)  # temp tree + serial reference built in the parent process
     return [Unit(
         name=f"c24.parallel_vs_serial[{n} files]",
         functions=["sqlfluff.core.linter.runner.ParallelRunner.run/_apply/iter_partials", "Linter.lint_paths (result assembly)",
